@@ -33,4 +33,6 @@ with open(os.path.join(VERIF, "seeded", "RESULTS.md"), "w") as f:
         for p, r in res.items():
             f.write("| %s | %s | %s | %s | %s |\n" % (name, meta.get("needs_to_manifest", "").replace("|", "/"), p,
                                                    "yes" if r["detected"] else "NO", r["first_report"].replace("|", "/")[:160]))
+# evidence files describe runs on the unchanged tree only: drop what the runs against seeded trees wrote
+subprocess.run(["git", "-C", VERIF, "checkout", "--", "evidence"])
 print(open(os.path.join(VERIF, "seeded", "RESULTS.md")).read())
